@@ -1460,8 +1460,6 @@ coap_oscore_decrypt_pdu(coap_session_t *session,
     coap_cancel_all_messages(session->context,
                              session,
                              &pdu->actual_token);
-    if (session->con_active)
-      session->con_active--;
     coap_send_ack_lkd(session, pdu);
     if (sent_pdu) {
       coap_log_oscore("Appendix B.2 retransmit pdu\n");
@@ -1609,8 +1607,6 @@ coap_oscore_decrypt_pdu(coap_session_t *session,
     coap_cancel_all_messages(session->context,
                              session,
                              &pdu->actual_token);
-    if (session->con_active)
-      session->con_active--;
     if (sent_pdu) {
       coap_send_ack_lkd(session, pdu);
       coap_log_debug("PDU requesting re-transmit\n");
